@@ -1,6 +1,7 @@
 SPECIFICATION Spec
 CONSTANTS
   Decls = {"acl", "table", "backend", "penaltybox", "ratecounter"}
+  NRoots = 2
   NUsers = 2
   MaxEdges = 8
   Sample = 0
